@@ -65,4 +65,30 @@ theorem block_frame (m n : Nat) (off ld : Int) (f : Buf → Nat → Nat → Num)
       exact inner j (hl j List.mem_cons_self) B _ (fun i hi => List.mem_range.mp hi)
   exact outer _ (fun j hj => List.mem_range.mp hj) b
 
+/-- **Frame of any double loop of updates**: if every single update leaves position `q` alone, so does the nested fold -/
+theorem fold2_frame {α β : Type} (l1 : List α) (l2 : List β) (g : Buf → α → β → Buf) (q : Nat)
+    (hg : ∀ (B : Buf) a b, a ∈ l1 → b ∈ l2 → (g B a b).getD q zero = B.getD q zero) (b0 : Buf) :
+    (l1.foldl (fun B a => l2.foldl (fun B b => g B a b) B) b0).getD q zero = b0.getD q zero := by
+  have inner : ∀ a, a ∈ l1 → ∀ (l : List β), (∀ b ∈ l, b ∈ l2) → ∀ (B : Buf),
+      (l.foldl (fun B b => g B a b) B).getD q zero = B.getD q zero := by
+    intro a ha l
+    induction l with
+    | nil => intro _ B; rfl
+    | cons b bs ih =>
+      intro hl B
+      simp only [List.foldl_cons]
+      rw [ih (fun x hx => hl x (List.mem_cons_of_mem _ hx))]
+      exact hg B a b ha (hl b List.mem_cons_self)
+  have outer : ∀ (l : List α), (∀ a ∈ l, a ∈ l1) → ∀ (B : Buf),
+      (l.foldl (fun B a => l2.foldl (fun B b => g B a b) B) B).getD q zero = B.getD q zero := by
+    intro l
+    induction l with
+    | nil => intro _ B; rfl
+    | cons a as ih =>
+      intro hl B
+      simp only [List.foldl_cons]
+      rw [ih (fun x hx => hl x (List.mem_cons_of_mem _ hx))]
+      exact inner a (hl a List.mem_cons_self) l2 (fun _ h => h) B
+  exact outer l1 (fun _ h => h) b0
+
 end CvxVerif.BlasSpec
